@@ -10,6 +10,7 @@ PARSER_FIELDS = {
     "body_rcv": Opt(OneOf(Obj("receiver.FixedStreamReceiver"), Obj("receiver.ChunkedReceiver"))),
     "version": Str, "error": Opt(Obj("utilities.Error")), "connection_close": Bool,
     "headers": DictOf(Str1), "adj": Obj("adjustments.Adjustments"),
+    "path": Str1, "command": Str1, "request_uri": Str1, "query": Str1, "url_scheme": Str,
 }
 
 PARSER_INV = [
@@ -86,6 +87,8 @@ def install(reg):
                   "self.headers"],
         check_invariant=False, props=["inline-on-constants"]))
 
+    reg.add(FuncContract("parser.HTTPRequestParser.close"))
+    reg.inline.add("parser.HTTPRequestParser.__init__")
     reg.add(FuncContract("parser.HTTPRequestParser.received", params={"data": Bytes}, returns=Int,
         raises=[],
         ensures=[
